@@ -66,3 +66,21 @@ Theorem C18_reinit_operation_touches_only_its_round :
   mem r (rm_shares (fst (handle_reinit outer m ops))) = mem r (rm_shares m).
 Proof. exact reinit_touches_only_its_round. Qed.
 Print Assumptions C18_reinit_operation_touches_only_its_round.
+
+(* ---- the name of the file an operation travels in (client/types Operation.Filename, Node/FileName.v;
+   repaired by 28a7d4a, 3a9e4b1, 1b86b05: identifiers from the board went into it unsanitised) ---- *)
+Require Import Node.FileName Node.FileNameProofs.
+
+(* whatever BYTES the round identifier, the operation identifier and the batch identifier are, every
+   byte of the file name is a letter, a digit, '.', '_' or '-': no path separator, no NUL, no backslash -
+   the name cannot leave the folder it is joined to, and creating the file cannot fail for its name *)
+Theorem C18_file_name_has_no_separator :
+  forall k round id batch b, In b (file_name k round id batch) ->
+  (b <> 47 /\ b <> 0 /\ b <> 92 /\ 45 <= b <= 122)%N.
+Proof. exact file_name_has_no_separator. Qed.
+Print Assumptions C18_file_name_has_no_separator.
+
+(* an identifier that consists of such characters goes through unchanged *)
+Theorem C18_file_name_part_keeps_safe_identifiers :
+  forall s, forallb safe_char s = true -> file_name_part s = s.
+Proof. exact file_name_part_keeps_safe_identifiers. Qed.
